@@ -627,14 +627,37 @@ impl Out {
 '''
 
 
-def render_corpus(c):
-    """Returns (rust source of the corpus program, expectations).
+def corpus_dependents(c, skip):
+    """Close a set of type indices under 'is mentioned by a field of'."""
+    skip = set(skip)
+    names = {c.types[i]["shape"]["name"] for i in skip}
+    changed = True
+    while changed:
+        changed = False
+        for ti, e in enumerate(c.types):
+            if ti in skip: continue
+            ids = set(i for v in variants_of(e["shape"]) for f in v["fields"] for i in idents(f["ty"]))
+            if ids & names:
+                skip.add(ti); names.add(e["shape"]["name"]); changed = True
+    return skip
 
-    expectations[ty_index] = {insts: [{self_ty, atoms: {(v,f): field type text}, runs: [{var, run, tokens, where}]}]}"""
-    out = [PRELUDE]
+
+def render_corpus(c, skip=()):
+    """Returns (rust source of the corpus program, expectations, line_map).
+
+    expectations[ty_index] = None for skipped types, else
+      {insts: [{self_ty, atoms: {"v.f": field type text}, runs: [{var, run, tokens, where, expr}]}]}
+    line_map = [(first_line, last_line, ty_index)] of each type's block in the source (1-based).
+    Deterministic: the random choices made here come from a generator seeded per type."""
+    skip = set(skip)
+    blocks = [(None, PRELUDE)]
     exp = []
     for ti, e in enumerate(c.types):
+        if ti in skip:
+            exp.append(None); continue
+        rng = random.Random("c15-render-%s-%d" % (e["shape"]["name"], len(c.types)))
         sh = e["shape"]
+        out = []
         out.append("// ---- %s" % sh["name"])
         out.append(to_rust(sh))
         if e["has_drop"]:
@@ -655,20 +678,23 @@ def render_corpus(c):
                     ft = subst(f["ty"], inst["lmap"], inst["tmap"])
                     body.append("    out.atom(%d, %d, %d, %d, <%s as Collect<'gc>>::NEEDS_TRACE);" % (ti, ii, vi, fi, ty_rust(ft)))
                     ie["atoms"]["%d.%d" % (vi, fi)] = ty_str(f["ty"])
+                seen_exprs = set()
                 for run, sparse in enumerate([False, True]):
-                    if sparse and c.rng.random() < 0.6: continue
+                    if sparse and rng.random() < 0.5: continue
                     tk = Tokens()
-                    rr = random.Random(c.rng.random())
+                    rr = random.Random(rng.random())
                     ex, toks = c.build_variant(e, v, inst["lmap"], inst["tmap"], tk, (vi, None), sparse, rr, tag_fields=True)
-                    # renumber tokens globally later: ids are local to this value, unique within it
+                    if ex in seen_exprs: continue
+                    seen_exprs.add(ex)
                     body.append("    { let v: %s = %s; out.trace(t, %d, %d, %d, %d, &v); }" % (self_ty, ex, ti, ii, vi, run))
-                    ie["runs"].append({"var": vi, "run": run, "tokens": toks, "where": {str(k): list(w) for k, w in tk.where.items()},
+                    ie["runs"].append({"var": vi, "run": run, "tokens": toks, "where": {k: list(w) for k, w in tk.where.items()},
                                        "expr": ex})
             te["insts"].append(ie)
         out.append("pub fn run_%d<'gc>(t: &Toks<'gc>, out: &mut Out) {\n%s\n}" % (ti, "\n".join(body)))
         exp.append(te)
-    calls = "\n".join("        run_%d(&t, &mut out);" % i for i in range(len(c.types)))
-    out.append("""
+        blocks.append((ti, "\n\n".join(out)))
+    calls = "\n".join("        run_%d(&t, &mut out);" % i for i in range(len(c.types)) if i not in skip)
+    blocks.append((None, """
 fn main() {
     let mut out = Out(String::new());
     gc_arena::arena::rootless_mutate(|mc| {
@@ -678,8 +704,14 @@ fn main() {
     print!("{}", out.0);
     println!("DONE %d");
 }
-""" % (calls, len(c.types)))
-    return "\n\n".join(out), exp
+""" % (calls, len(c.types) - len(skip))))
+    src, line_map, line = "", [], 1
+    for ti, text in blocks:
+        text = text + "\n\n"
+        n = text.count("\n")
+        if ti is not None: line_map.append((line, line + n - 1, ti))
+        src += text; line += n
+    return src, exp, line_map
 
 
 # ----------------------------------------------------------------------------------------------
